@@ -490,3 +490,45 @@ Proof.
   intros Ho Hc. unfold cpython_mro_ext. rewrite py_mro_ext_eq by auto.
   apply cpython_mro_obj_eq; auto.
 Qed.
+
+(* ---------------------------------------------------------------- several hidden classes *)
+
+Lemma map_ok_compose {A B C} (f : B -> C) (g : A -> B) (r : res A) : map_ok f (map_ok g r) = map_ok (fun a => f (g a)) r.
+Proof. destruct r; reflexivity. Qed.
+
+Lemma drop_all_as_fun xs : forall x l, drop_all xs (drop x l) = drop_all (x :: xs) l.
+Proof. reflexivity. Qed.
+
+(* For every Python-expressible hierarchy and every LIST of root classes the collection does not hold: if each of them is
+   last-only in the table left after hiding the previous ones, Griffe's MRO on the collection without them is CPython's
+   MRO with them erased. *)
+Theorem hidden_all : forall xs t c, ordered t -> (forall x, In x xs -> cbases (nth_cls t x) = []) ->
+  c < List.length t -> ~ In c xs -> ext_last_only_all t xs c = true ->
+  griffe_full_mro (hide_all xs t) c = map_ok (drop_all xs) (cpython_mro t c).
+Proof.
+  induction xs as [|x r IH]; intros t c Ho Hroot Hc Hnin Hlo.
+  - simpl. destruct (mro_eq_cpython t c Ho Hc) as [-> _]. destruct (cpython_mro t c); reflexivity.
+  - simpl in Hlo. apply andb_true_iff in Hlo. destruct Hlo as [Hx Hr]. simpl hide_all.
+    rewrite (IH (hide x t) c).
+    + destruct (mro_eq_cpython (hide x t) c (hide_ordered x t Ho)) as [<- _]; [rewrite hide_length; exact Hc|].
+      rewrite (hidden_modulo_known t x c Ho).
+      * rewrite map_ok_compose. destruct (cpython_mro t c); reflexivity.
+      * apply Hroot. left. reflexivity.
+      * exact Hc.
+      * intros ->. apply Hnin. left. reflexivity.
+      * unfold ext_not_last. rewrite Hx. reflexivity.
+    + apply hide_ordered. exact Ho.
+    + intros x' Hx'. rewrite cbases_hide. rewrite (Hroot x' (or_intror Hx')). reflexivity.
+    + rewrite hide_length. exact Hc.
+    + intros Hin. apply Hnin. right. exact Hin.
+    + exact Hr.
+Qed.
+
+(* non-vacuity: G = typing.Generic (2) and B = abc.ABC (3); P(A, G, B), Q(G), S(P), Z(S, Q, B): hiding B first, then G *)
+Definition two_hidden_tbl : tbl :=
+  [ mkCls "m.A" [] []; mkCls "m.A2" [] []; mkCls "typing.Generic" [] []; mkCls "abc.ABC" [] [];
+    mkCls "m.P" [0; 2; 3] []; mkCls "m.Q" [2] []; mkCls "m.S" [4] []; mkCls "m.Z" [6; 5; 3] [] ].
+Example two_hidden : ext_last_only_all two_hidden_tbl [3; 2] 7 = true /\ ext_last_only_all two_hidden_tbl [2; 3] 7 = false /\
+  griffe_full_mro (hide_all [3; 2] two_hidden_tbl) 7 = Ok [7; 6; 4; 0; 5] /\
+  cpython_mro two_hidden_tbl 7 = Ok [7; 6; 4; 0; 5; 2; 3].
+Proof. repeat split; reflexivity. Qed.
